@@ -1,5 +1,6 @@
 SPECIFICATION Spec
 CONSTANTS UniqueNames = TRUE
+  Dirs = {"d0", "d1"}
 INVARIANTS VerdictRight Bounded
 PROPERTIES Terminates
 CHECK_DEADLOCK FALSE
